@@ -73,12 +73,12 @@ def handle (op : String) (args : List String) : String :=
   | "cyc", [shape, fuel] =>
     match fuel.toNat? with
     | some fuel =>
-      let max := Gen.jsontext.c_maxNestingDepth
-      let after := Gen.json.c_startDetectingCyclesAfter
+      let cfg : Cycle.Cfg := { max := Gen.jsontext.c_maxNestingDepth, after := Gen.json.c_startDetectingCyclesAfter }
       match shape with
-      | "selfPtr" => showRes (Cycle.marshal Cycle.selfPtr max after fuel 1 [] 0)
-      | "selfIface" => showRes (Cycle.marshal Cycle.selfIface max after fuel 1 [] 0)
-      | "selfSlice" => showRes (Cycle.marshal Cycle.selfSlice max after fuel 1 [] 0)
+      | "selfPtr" => showRes (Cycle.marshal cfg Cycle.selfPtr fuel 1 [] 0)
+      | "selfIface" => showRes (Cycle.marshal cfg Cycle.selfIface fuel 1 [] 0)
+      | "selfSlice" => showRes (Cycle.marshal cfg Cycle.selfSlice fuel 1 [] 0)
+      | "selfPtrOld" => showRes (Cycle.marshal { cfg with trackPtrLike := false } Cycle.selfPtr fuel 1 [] 0)
       | _ => badArgs
     | none => badArgs
   | _, _ => badArgs
